@@ -896,3 +896,44 @@ impl Exec {
         std::mem::forget(s);
     }
 }
+
+// ---------------------------------------------------------------------------------------------
+// Debug aid: print quinn's tracing events (QV_LOG=1 during a replay)
+// ---------------------------------------------------------------------------------------------
+
+pub struct PrintSub;
+
+struct FieldPrinter(String);
+impl tracing::field::Visit for FieldPrinter {
+    fn record_debug(&mut self, field: &tracing::field::Field, value: &dyn fmt::Debug) {
+        use std::fmt::Write;
+        let _ = write!(self.0, " {}={:?}", field.name(), value);
+    }
+}
+
+impl tracing::Subscriber for PrintSub {
+    fn enabled(&self, _: &tracing::Metadata<'_>) -> bool {
+        true
+    }
+    fn new_span(&self, _: &tracing::span::Attributes<'_>) -> tracing::span::Id {
+        tracing::span::Id::from_u64(1)
+    }
+    fn record(&self, _: &tracing::span::Id, _: &tracing::span::Record<'_>) {}
+    fn record_follows_from(&self, _: &tracing::span::Id, _: &tracing::span::Id) {}
+    fn event(&self, event: &tracing::Event<'_>) {
+        let mut p = FieldPrinter(String::new());
+        event.record(&mut p);
+        eprintln!("LOG {} {}:{}{}", event.metadata().level(), event.metadata().target(), event.metadata().line().unwrap_or(0), p.0);
+    }
+    fn enter(&self, _: &tracing::span::Id) {}
+    fn exit(&self, _: &tracing::span::Id) {}
+}
+
+/// Install the printing subscriber for the current thread while the guard lives
+pub fn debug_log() -> Option<tracing::subscriber::DefaultGuard> {
+    if std::env::var("QV_LOG").is_ok() {
+        Some(tracing::subscriber::set_default(PrintSub))
+    } else {
+        None
+    }
+}
